@@ -189,6 +189,12 @@ class World:
                 got = fmt(self.net.out_links(two))
                 if got != exp:
                     bad.append(f"out_links([{self.show(two[0])}, {self.show(two[1])}]) = {got}, the graph has {exp}")
+            for u in G.nodes:
+                for v, d in G.succ[u].items():
+                    for nm_, view in (("links", self.net.links), ("out_links", self.net.out_links), ("in_links", self.net.in_links)):
+                        got = view[u, v]
+                        if got is not d.get("link"):
+                            bad.append(f"{nm_}[{self.show(u)}, {self.show(v)}] is {self.show(got)}, the edge carries {self.show(d.get('link'))}")
             exp_all = fmt((u, v, d.get("link")) for u in G.nodes for v, d in G.succ[u].items())
             got_all = fmt(self.net.links)
             if got_all != exp_all:
